@@ -85,6 +85,18 @@ StrictlyIncreasing == \A i \in 1..(Len(notified) - 1) : notified[i][1] < notifie
 TypeOK == /\ lastBlockSeen >= S /\ waitingForEpoch >= 1
 
 -----------------------------------------------------------------------------
+(* link to the unbounded argument (EpochInd.tla, inductive invariant discharged by Apalache): for every epoch e of the
+   bounded model, each step here is a step of EpochInd under the refinement mapping below, and EpochInd's inductive
+   invariant holds in every reachable state *)
+NotifiedFor(e) == { i \in DOMAIN notified : notified[i][1] = e }
+Ind(e) == INSTANCE EpochInd WITH E <- e, fp <- firstPast[e], cnt <- Cardinality(NotifiedFor(e)),
+                                 nb <- (IF NotifiedFor(e) = {} THEN 0
+                                        ELSE notified[CHOOSE i \in NotifiedFor(e) : \A j \in NotifiedFor(e) : j <= i][2]),
+                                 lastEpoch <- (IF notified = <<>> THEN 0 ELSE notified[Len(notified)][1])
+RefinesInd == [][\A e \in 1..Epochs : Ind(e)!NewBlock(lastFed')]_vars
+IndInvAll  == \A e \in 1..Epochs : Ind(e)!IndInv
+
+-----------------------------------------------------------------------------
 (* behaviour export: one full path per generated transition *)
 Dump == PrintT(<<"CASE", ToJson([n |-> N, s |-> S, p |-> P, blocks |-> hist'])>>)
 =============================================================================
